@@ -6,7 +6,7 @@ from specs import optics
 EXPLANATION = ('C07: Wavefront.field / intensity / insert on wavefronts holding several symbolic fields (overlapping or not), and '
                'Plane/Pupil/Image.multiply on every amplitude/OPD/mask form with symbolic values.')
 BOUNDS = {
-    'quick': 'views: 1..3 fields of shapes <= 3x3 at offsets in -2..2 in an output <= 4x4 (sampled 120 geometries), symbolic complex content and weight; '
+    'quick': 'views: 1..3 fields of shapes <= 3x3 at offsets in -2..2 in an output <= 4x4 (sampled 320 geometries), symbolic complex content and weight; '
              'phasor: plane shapes <= 3x3, amplitude/OPD scalar|array, mask omitted|2-D|3-D, classes Plane/Pupil/Image, incoming default|after-plane|propagated',
     'thorough': 'views: 1..4 fields <= 4x4 (600 geometries); phasor: planes <= 4x4, all form combinations',
 }
@@ -17,7 +17,7 @@ STUBS = []
 # ------------------------------------------------------------------ views
 def cfg_views(tier, seed):
     rng = random.Random(77 + seed)
-    top, kmax, want = (3, 3, 120) if tier == 'quick' else (4, 4, 600)
+    top, kmax, want = (3, 3, 320) if tier == 'quick' else (4, 4, 600)
     out = []
     for _ in range(want):
         k = rng.randint(1, kmax)
@@ -85,7 +85,7 @@ def cfg_phasor(tier, seed):
                 continue            # an image-plane wavefront may not meet a type-none plane (C08's table)
             if maskf == '3d' and len(cells) < 2:
                 continue
-            if tier == 'quick' and rng.random() > 0.25:
+            if tier == 'quick' and rng.random() > 0.6:
                 continue
             if maskf == 'none':
                 sup = [c for c in cells if rng.random() < 0.7] or cells[:1]
